@@ -7,16 +7,7 @@ open Ldk Ldk.Forward Ldk.ChainClaimGen
 theorem run_append (s : St) (a b : List Op) : run (run s a) b = run s (a ++ b) := by
   simp [run, List.foldl_append]
 
-theorem memo_eq (n : Nat) (f : Nat → St) : memo n f = f := by
-  funext i
-  simp only [memo]
-  split
-  · rename_i h
-    simp
-  · rfl
-
-theorem mstep_eq_spec (m : MSt) (op : MOp) : mstep m op = mstepSpec m op := by
-  simp only [mstep, memo_eq]
+theorem mstep_eq_spec (m : MSt) (op : MOp) : mstep m op = mstepSpec m op := rfl
 
 theorem mstep_hs (m : MSt) (op : MOp) (i : Nat) : (mstep m op).hs i = run (m.hs i) (opsFor m op i) := by
   simp only [mstep_eq_spec, mstepSpec, opsFor, run_append, List.append_assoc]
@@ -24,6 +15,11 @@ theorem mstep_hs (m : MSt) (op : MOp) (i : Nat) : (mstep m op).hs i = run (m.hs 
 theorem mstep_n (m : MSt) (op : MOp) : (mstep m op).n = m.n := by rw [mstep_eq_spec]; rfl
 
 theorem mrun_cons (m : MSt) (op : MOp) (ops : List MOp) : mrun m (op :: ops) = mrun (mstep m op) ops := rfl
+
+theorem mrun_n (m : MSt) (ops : List MOp) : (mrun m ops).n = m.n := by
+  induction ops generalizing m with
+  | nil => rfl
+  | cons op t ih => rw [mrun_cons, ih, mstep_n]
 
 /-- the trajectory of HTLC `i` in ANY run of the N-machine is a run of the one-HTLC machine -/
 theorem lifting_from (m : MSt) (ops : List MOp) (i : Nat) : ∃ ops', (mrun m ops).hs i = run (m.hs i) ops' := by
